@@ -988,6 +988,7 @@ func StringOf(v Value) (string, *Err) {
 	}
 	var sb strings.Builder
 	enc := json.NewEncoder(&sb)
+	enc.SetEscapeHTML(false) // the string form keeps < > & as they are
 	if err := enc.Encode(v); err != nil {
 		return "", otherErr(err.Error())
 	}
